@@ -183,7 +183,7 @@ class parser(PluginType):
             except SkipComponent as sc:
                 if broker.store_skips:
                     log.warning(sc)
-                    broker.add_exception(component, sc, traceback.format_exc())
+                    broker.add_exception(self.component, sc, traceback.format_exc())
                 else:
                     pass
             except CalledProcessError as cpe:
